@@ -11,7 +11,14 @@ PLAN = dict(
          "equal the first one byte for byte; in assembly code (not in comments) generated label numbers are renumbered by first occurrence "
          "before comparing. Non-trivial: every case; tags: number of type declarations, number of printable stages",
     explanation="theorems: hash sets of linearization matter only by membership; ordered sets of the back ends are insertion-order independent; "
-                "process-level determinism is observed, the harness computes the verdict and the model runner relays it",
-    assumptions=["fresh processes get fresh std hash seeds (RandomState)", "label renumbering in the comparison is the property's own allowance"],
+                "round 2: the label counter only renumbers labels - translate / compile / the complete routines of all three back ends started at "
+                "counter c2 equal the run started at c1 with every generated label lab<k>, <Type>_<k>, <Type>_<k>_<Xtor> renamed to k - c1 + c2 by a "
+                "FUNCTION on label texts (same errors, final counter shifted; C17_translate_shift, C17_*_compile_shift), under renaming_guard (the "
+                "name-digits guard of C14); refuted without it; renumbering to base 0 is a normal form (C17_normal_form) and the first-occurrence "
+                "numbering used by the run-time comparison is invariant under the shift (C17_first_occurrence_numbering_*). Process-level determinism "
+                "is observed, the harness computes the verdict and the model runner relays it",
+    assumptions=["fresh processes get fresh std hash seeds (RandomState)", "label renumbering in the comparison is the property's own allowance",
+                 "the tokenisation of printed assembly by normalize_labels is not modelled; it renumbers every all-digit `_` component of an upper-case word, so a "
+                 "program whose type / xtor names embed numbers equal to generated label numbers of one run but not the other can raise a false alarm (never a miss)"],
     trusted=["harness/src/cmd_det.rs (comparison and label normalisation)"],
 )
